@@ -60,7 +60,7 @@ fn sanitize_function(
     // Check for custom parameters
     let separator = args.get("separator").and_then(|v| v.as_str());
     let keep_zeros = args.get("keep_zeros").and_then(|v| v.as_bool());
-    let max_length = args.get("max_length").and_then(|v| v.as_u64());
+    let max_length = get_length_arg(args, "sanitize", "max_length")?;
     let lowercase = args.get("lowercase").and_then(|v| v.as_bool());
 
     let has_custom_params =
@@ -94,7 +94,7 @@ fn sanitize_function(
             separator,
             lowercase.unwrap_or(false),
             keep_zeros.unwrap_or(false),
-            max_length.map(|l| l as usize),
+            max_length,
         );
         sanitizer.sanitize(&value)
     } else {
@@ -105,12 +105,33 @@ fn sanitize_function(
     Ok(Value::String(sanitized))
 }
 
+/// Read an optional length-like argument: a non-negative whole number. Anything else that is
+/// given (a fraction, a negative number, text) is an error rather than silently the default.
+fn get_length_arg(
+    args: &std::collections::HashMap<String, Value>,
+    fn_name: &str,
+    key: &str,
+) -> Result<Option<usize>, tera::Error> {
+    let Some(value) = args.get(key) else {
+        return Ok(None);
+    };
+    if let Some(n) = value.as_u64() {
+        return Ok(Some(n as usize));
+    }
+    match value.as_f64() {
+        Some(f) if f >= 0.0 && f.fract() == 0.0 && f <= u32::MAX as f64 => Ok(Some(f as usize)),
+        _ => Err(tera::Error::msg(format!(
+            "{fn_name}: {key} must be a non-negative integer, got {value}"
+        ))),
+    }
+}
+
 /// Generate hex hash of string with configurable length
 /// Usage: {{ hash(value, length=7) }}
 fn hash_function(args: &std::collections::HashMap<String, Value>) -> Result<Value, tera::Error> {
     let input = get_string_value(args, "value")?;
 
-    let length = args.get("length").and_then(|v| v.as_u64()).unwrap_or(7) as usize;
+    let length = get_length_arg(args, "hash", "length")?.unwrap_or(7);
 
     let mut hasher = DefaultHasher::new();
     input.hash(&mut hasher);
@@ -132,7 +153,7 @@ fn hash_int_function(
 ) -> Result<Value, tera::Error> {
     let input = get_string_value(args, "value")?;
 
-    let length = args.get("length").and_then(|v| v.as_u64()).unwrap_or(7) as usize;
+    let length = get_length_arg(args, "hash_int", "length")?.unwrap_or(7);
 
     let allow_leading_zero = args
         .get("allow_leading_zero")
@@ -171,7 +192,7 @@ fn hash_int_function(
 fn prefix_function(args: &std::collections::HashMap<String, Value>) -> Result<Value, tera::Error> {
     let input = get_string_value(args, "value")?;
 
-    let length = args.get("length").and_then(|v| v.as_u64()).unwrap_or(10) as usize;
+    let length = get_length_arg(args, "prefix", "length")?.unwrap_or(10);
 
     // Count characters, not bytes: the value may contain multi-byte text
     let prefix: String = input.chars().take(length).collect();
